@@ -925,9 +925,19 @@ def r15_a(ctx):
     allowed_attr = {'parent'}
     for cname in ('TexNode', 'TexExpr'):
         cls = repo.need_cls('data.' + cname)
-        for mname in ('append', 'insert', 'remove', 'delete', 'replace', 'replace_with'):
-            if mname not in cls.methods:
-                continue
+        # the mutators and the private helpers of the class they call (transitively)
+        names = [m_ for m_ in ('append', 'insert', 'remove', 'delete', 'replace', 'replace_with') if m_ in cls.methods]
+        work = list(names)
+        while work:
+            cur_ = _m(cls, work.pop())
+            for n in ast.walk(cur_.node):
+                if isinstance(n, ast.Call) and isinstance(n.func, ast.Attribute) and isinstance(n.func.value, ast.Name) \
+                        and n.func.value.id == 'self' and n.func.attr in cls.methods and n.func.attr not in names \
+                        and n.func.attr.startswith('_') and not n.func.attr.endswith('__') \
+                        and 'assert' not in n.func.attr and 'supports' not in n.func.attr:
+                    names.append(n.func.attr)
+                    work.append(n.func.attr)
+        for mname in names:
             fd = _m(cls, mname)
             bad = []
             from .model import with_self_aliases_resolved
